@@ -125,7 +125,7 @@ def st_world(draw, prof: Optional[Dict[str, Any]] = None) -> Dict[str, Any]:
     # stations
     stations = []
     for i in range(draw(st.integers(*p["stations"]))):
-        ptypes = draw(st.lists(st.sampled_from(ALL_PLUGS), unique=True, min_size=1, max_size=3))
+        ptypes = draw(st.lists(st.sampled_from(p.get("plug_types", ALL_PLUGS)), unique=True, min_size=1, max_size=p.get("max_ptypes", 3)))
         stations.append(
             {
                 "id": f"s{i + 1}",
@@ -193,7 +193,7 @@ def st_world(draw, prof: Optional[Dict[str, Any]] = None) -> Dict[str, Any]:
         )
     # complete, time-varying tariff table by station id (C11 generates the partial ones)
     prices = None
-    if draw(st.booleans()):
+    if p.get("prices_always") or draw(st.booleans()):
         prices = []
         for when in [0] + sorted(draw(st.lists(st.integers(0, 40), max_size=2, unique=True))):
             for s in stations:
@@ -204,7 +204,9 @@ def st_world(draw, prof: Optional[Dict[str, Any]] = None) -> Dict[str, Any]:
         "matching_range_km_threshold": draw(st.sampled_from([20, 1, 5])),
         "charging_range_km_threshold": draw(st.sampled_from([20, 5])),
         "charging_range_km_soft_threshold": draw(st.sampled_from([50, 50, 400])),
-        "charging_search_type": draw(st.sampled_from(["nearest_shortest_queue"] * 3 + ["shortest_time_to_charge"])),
+        # shortest_time_to_charge simulates whole charge sessions step by step for every candidate: only
+        # affordable with steps >= 60 s
+        "charging_search_type": draw(st.sampled_from(["nearest_shortest_queue"] * 3 + (["shortest_time_to_charge"] if dt >= 60 else []))),
         "idle_time_out_seconds": draw(st.sampled_from([1800, 120, 600])),
         # ring search cost grows with (radius / search-cell size)^3 when nothing is found: keep it small
         "max_search_radius_km": draw(st.sampled_from([5.0, 10.0])),
@@ -249,7 +251,7 @@ def _site(w: Dict[str, Any], idx: int) -> Tuple[float, float]:
     return SITE_POOL[w["sites"][idx]]
 
 
-def write_world(w: Dict[str, Any], d: Path, end_steps: int = 100000) -> Path:
+def write_world(w: Dict[str, Any], d: Path, end_steps: int = 2000) -> Path:
     """Write the scenario directory for world spec `w`; returns the scenario YAML path."""
     d = Path(d)
     rows = ["vehicle_id,lat,lon,mechatronics_id,initial_soc,schedule_id,home_base_id"]
@@ -369,7 +371,7 @@ def load_scenario(scenario: Path, gens: Optional[Sequence[Any]] = None, real_han
 class World:
     """A loaded world: scratch dir + RunnerPayload; `close()` removes every trace."""
 
-    def __init__(self, spec: Dict[str, Any], gens=None, real_handlers: bool = False, end_steps: int = 100000,
+    def __init__(self, spec: Dict[str, Any], gens=None, real_handlers: bool = False, end_steps: int = 2000,
                  builtin_first: bool = False):
         self.spec = spec
         self.dir = new_scratch()
